@@ -10,4 +10,5 @@ Extraction "c14b_model.ml" conv_anchor
   name_appleBCP name_msBCP name_maxID
   M_otf_tag_string M_otf_to_ext M_from_ext M_otf_there_and_back conv_ok xtext_strict private_part
   script_shape lang_shape
-  M_sl_group M_sl_info_encode M_sl_info_read M_sl_encode canon_asg.
+  M_sl_group M_sl_info_encode M_sl_info_read M_sl_encode canon_asg
+  M_plain_tag M_sl_info_encode_g gtab_langBcp47 gtab_scriptBcp47.
